@@ -298,7 +298,7 @@ func corsRequests(cfg corsCfg, r *ref.R, random bool) []corsReq {
 	for _, m := range []string{"GET", "HEAD", "POST", "OPTIONS", "PUT", "BOGUS"} {
 		for _, pc := range []string{"live", "notfound", "star"} {
 			for _, o := range originClasses {
-				for _, acrm := range []string{"", "GET", "POST", "DELETE", "get", "GE", "GET, HEAD", "PROPFIND"} {
+				for _, acrm := range []string{"", "GET", "POST", "DELETE", "get", "GE", "GET, HEAD", "PROPFIND", "HEAD", "OPTIONS"} {
 					for _, hn := range []string{"absent", "as-configured", "lower-case", "each-upper-case", "mixed-spaces", "one-disallowed", "prefix-of-allowed", "extension-of-allowed", "empty-element"} {
 						out = append(out, corsReq{Method: m, PathClass: pc, HasOrigin: o.has, Origin: o.val, ACRM: acrm, ACRH: acrhClasses[hn],
 							class: fmt.Sprintf("%s %s origin=%s acrm=%q acrh=%s", m, pc, o.name, acrm, hn)})
@@ -543,7 +543,7 @@ func init() {
 		}
 		return n * 8
 	}
-	rule := "the class product is enumerated completely: " + fmt.Sprint(n) + " configuration classes (origins none/any/one/several/any+others x allowed headers none/any/list/mixed-case unsorted list x exposed x max-age 0/-1/n x credentials, minus the rejected '*'+credentials) x 4860 request classes (6 methods x 3 paths x 6 origin classes x 5 Access-Control-Request-Method classes x 9 Access-Control-Request-Headers classes derived from the configured list: as configured, lower/upper case, spaced lists, one disallowed, proper prefix / extension of an allowed name, empty element); first pass canonical strings, further passes random instantiations; " +
+	rule := "the class product is enumerated completely: " + fmt.Sprint(n) + " configuration classes (origins none/any/one/several/any+others x allowed headers none/any/list/mixed-case unsorted list x exposed x max-age 0/-1/n x credentials, minus the rejected '*'+credentials) x 9720 request classes (6 methods x 3 paths x 6 origin classes x 10 Access-Control-Request-Method classes (absent, served, unserved, lower case, fragment, joined list, unknown, and the automatically served HEAD and OPTIONS) x 9 Access-Control-Request-Headers classes derived from the configured list: as configured, lower/upper case, spaced lists, one disallowed, proper prefix / extension of an allowed name, empty element); first pass canonical strings, further passes random instantiations; " +
 		"non-trivial (distinct) = every (configuration class, request class, concrete strings) triple"
 	Register(&Engine{
 		ID: "C11", Cases: cases, Anchors: []string{"options.go:cors.handle", "options.go:cors.headerIsAllowed", "options.go:cors.sanitize"}, Run: func(c *Ctx) { runCORS(c, "C11") }, Directed: corsDirected("C11"), Rule: rule, Exhaustive: true,
